@@ -46,7 +46,10 @@ def run(ctx):
     lines, meta = [], []
     for op in ('ext', 'ext_client', 'ext_server'):
         for t in range(65536):
-            for pi, pr in enumerate(probes if (ctx.thorough or t < 300 or t in GREASE or t % 257 == 0 or (t & 0x0f0f) == 0x0a0a or t in (13172, 0xff01, 0xffce)) else probes[:1]):
+            plist = probes if (ctx.thorough or t < 300 or t in GREASE or t % 257 == 0 or (t & 0x0f0f) == 0x0a0a or t in (13172, 0xff01, 0xffce)) else probes[:1]
+            if t in NAME or t in GREASE:      # sizes at which a truncating cast of the length would wrap
+                plist = plist + [bytes(255), bytes(256), bytes(257), bytes(512), bytes(65535)]
+            for pi, pr in enumerate(plist):
                 lines.append('%s %s' % (op, core.hexs(t.to_bytes(2, 'big') + len(pr).to_bytes(2, 'big') + pr)))
                 meta.append((op, t, pr))
     impl, model = ctx.run_both(lines)
